@@ -355,6 +355,11 @@ func (srv *Srv) write(req *SrvReq) {
 	tc := req.Tc
 	if (fid.Type & QTAUTH) != 0 {
 		tc := req.Tc
+		if uint64(tc.Count)+IOHDRSZ > uint64(req.Conn.Msize) {
+			req.RespondError(Etoolarge)
+			return
+		}
+
 		if op, ok := (req.Conn.Srv.ops).(AuthOps); ok {
 			n, err := op.AuthWrite(req.Fid, tc.Offset, tc.Data)
 			if err != nil {
